@@ -281,13 +281,20 @@ fn run_dynamic(case: &Case, resizer: &mut Resizer, sbytes: &[u8], dbytes: &mut V
     let opts = case.options();
     let (_, sw, sh, _) = shape_base(&case.sshape);
     let (_, dw, dh, _) = shape_base(&case.dshape);
-    // 16-byte aligned copies
-    let mut sal = vec![0u128; sbytes.len() / 16 + 1];
-    let sslice: &mut [u8] = unsafe { std::slice::from_raw_parts_mut(sal.as_mut_ptr() as *mut u8, sbytes.len()) };
-    sslice.copy_from_slice(sbytes);
-    let mut dal = vec![0u128; dbytes.len() / 16 + 1];
-    let dslice: &mut [u8] = unsafe { std::slice::from_raw_parts_mut(dal.as_mut_ptr() as *mut u8, dbytes.len()) };
-    dslice.copy_from_slice(dbytes);
+    // 16-byte aligned copies; for multi-byte pixel types most buffers get a ragged tail of 1 .. size-1 spare
+    // bytes (a byte buffer that is longer than needed by less than one pixel is a valid container)
+    let psize = case.pt.size();
+    let rag_s = if psize > 1 { (sw as usize * 7 + dh as usize * 3 + 1) % psize } else { 0 };
+    let rag_d = if psize > 1 { (dw as usize * 5 + sh as usize + 2) % psize } else { 0 };
+    let (slen, dlen) = (sbytes.len(), dbytes.len());
+    let mut sal = vec![0u128; (slen + rag_s) / 16 + 1];
+    let sslice: &mut [u8] = unsafe { std::slice::from_raw_parts_mut(sal.as_mut_ptr() as *mut u8, slen + rag_s) };
+    sslice[..slen].copy_from_slice(sbytes);
+    sslice[slen..].fill(0xEE);
+    let mut dal = vec![0u128; (dlen + rag_d) / 16 + 1];
+    let dslice: &mut [u8] = unsafe { std::slice::from_raw_parts_mut(dal.as_mut_ptr() as *mut u8, dlen + rag_d) };
+    dslice[..dlen].copy_from_slice(dbytes);
+    dslice[dlen..].fill(0xEE);
     if SRC_AS_MUT_VIEW.load(std::sync::atomic::Ordering::Relaxed) && shape_crops(&case.sshape).len() == 1 {
         let sc = shape_crops(&case.sshape);
         let dc = shape_crops(&case.dshape);
@@ -302,7 +309,8 @@ fn run_dynamic(case: &Case, resizer: &mut Resizer, sbytes: &[u8], dbytes: &mut V
                 resizer.resize(&s1, &mut d1, &opts)
             }
         };
-        dbytes.copy_from_slice(dslice);
+        assert!(dslice[dlen..].iter().all(|&b| b == 0xEE), "spare bytes behind the destination image were changed");
+        dbytes.copy_from_slice(&dslice[..dlen]);
         return r;
     }
     let simg = ImageRef::new(sw, sh, sslice, case.pt).unwrap();
@@ -327,7 +335,8 @@ fn run_dynamic(case: &Case, resizer: &mut Resizer, sbytes: &[u8], dbytes: &mut V
             }
         }
     };
-    dbytes.copy_from_slice(dslice);
+    assert!(dslice[dlen..].iter().all(|&b| b == 0xEE), "spare bytes behind the destination image were changed");
+    dbytes.copy_from_slice(&dslice[..dlen]);
     r
 }
 
